@@ -24,8 +24,14 @@ const unixToInternal = (1969*365 + 1969/4 - 1969/100 + 1969/400) * 86400
 
 func init() {
 	reg("time.Now", func(in *Interp, fn *ssa.Function, args []Value) Value {
-		frozen, symbolic := false, false
+		frozen, symbolic, fresh := false, false, false
+		if in.inInit == 0 && in.harnessPkg.Func("verifTimeNow") != nil {
+			fresh = true
+		}
 		for _, e := range in.Cfg.Execute {
+			if e == "clock:fresh" {
+				fresh = true
+			}
 			if e == "clock:frozen" {
 				frozen = true
 			}
@@ -36,6 +42,9 @@ func init() {
 		if in.inInit > 0 {
 			// package initialisers (timex.initTime, ...) get a fixed instant
 			frozen = true
+		}
+		if fresh && !frozen && in.inInit == 0 {
+			return timeNowFresh(in, fn, args)
 		}
 		if symbolic && !frozen {
 			// one symbolic instant per path: `now` seconds after the Unix epoch,
